@@ -620,4 +620,104 @@ theorem C15b_full_leaf (k : Kind F) (name : String) (round : Nat) (L : Nat) (hc 
   | donchian p _ => cases hL
   | amorph a _ => cases hL
 
+/-! ### non-vacuity (toy carrier `Int`) -/
+
+section Demo
+
+private def mk (o h l c v : Int) (t : Int) : Candle Int :=
+  { o := .int o, h := .int h, l := .int l, c := .int c, v := .int v, ts := some t }
+
+/-- a numeric reading as an `Int` (for `decide`) -/
+private def rd (v : Option (Val Int)) : Option Int :=
+  match v with
+  | some (.s (.num (.flt n))) => some n
+  | some (.s (.num (.int n))) => some n
+  | _ => none
+
+/-- five raw candles, stamps 60 … 300 -/
+def twDemoInit : List (Candle Int) :=
+  [mk 1 3 1 3 10 60, mk 2 5 2 6 20 120, mk 4 4 0 9 5 180, mk 1 2 1 12 7 240, mk 3 6 2 6 9 300]
+def twDemo360 : List (Candle Int) := [mk 2 4 1 3 4 360]
+def twDemo420 : List (Candle Int) := [mk 2 4 1 3 4 420]
+def twDemo480 : List (Candle Int) := [mk 5 7 4 6 8 480]
+
+example : ∀ c ∈ twDemoInit ++ [twDemo420, [], twDemo480].flatten, Plain c := by decide
+/-- lifespan 240 s pops nothing at construction … -/
+example : trimCandles (some 240) twDemoInit = .ok twDemoInit := rfl
+/-- … the append of 420 pops 60 and 120, the append of 480 pops 180: each time exactly THREE
+candles from before the append are retained – `RetainsFrom 3` (SMA 3, ROC 3), a fortiori
+`RetainsFrom 2` (WMA / VWMA / EMA / RMA 3) -/
+theorem twDemo_retains3 : RetainsFrom 3 240 twDemoInit twDemoInit.length [twDemo420, [], twDemo480] :=
+  Or.inr ⟨by decide, (twDemoInit ++ twDemo420).drop 2, rfl, Or.inr (by decide),
+    Or.inl ⟨rfl, Or.inr ⟨by decide, (twDemoInit ++ twDemo420 ++ twDemo480).drop 3, rfl, Or.inr (by decide), trivial⟩⟩⟩
+/-- … while lifespan 100 s leaves only ONE predecessor: `RetainsFrom 1` holds, `RetainsFrom 3` does not -/
+example : RetainsFrom 1 100 (twDemoInit.drop 3) 5 [twDemo360] :=
+  Or.inr ⟨by decide, (twDemoInit ++ twDemo360).drop 4, rfl, Or.inr (by decide), trivial⟩
+example : ¬ RetainsFrom 3 100 (twDemoInit.drop 3) 5 [twDemo360] := by
+  intro h
+  rcases h with ⟨h, _⟩ | ⟨_, m', hm, hc, _⟩
+  · cases h
+  · have : m' = (twDemoInit ++ twDemo360).drop 4 := by
+      have e : trimCandles (some 100) (twDemoInit.drop 3 ++ twDemo360) = .ok ((twDemoInit ++ twDemo360).drop 4) := rfl
+      rw [e] at hm; cases hm; rfl
+    subst this
+    revert hc; decide
+
+example : Covered (F := Int) "SMA_3" (.sma 3 "close") := .sma 3 "close" (by decide) (by decide) (by decide)
+
+/-- the schedule theorem applied to the demo – SMA 3 -/
+example : ∃ d, candlesOf (runIndicator (mkTop (F := Int) (.sma 3 "close") "SMA_3" 4) (cfgLifeOnly 240) twDemoInit
+      [twDemo420, [], twDemo480])
+    = (candlesOf (runIndicator (mkTop (F := Int) (.sma 3 "close") "SMA_3" 4) {} twDemoInit
+      [twDemo420, [], twDemo480])).map (·.drop d) :=
+  C15b_full_leaf (.sma 3 "close") "SMA_3" 4 3 (.sma 3 "close" (by decide) (by decide) (by decide)) rfl 240
+    twDemoInit [twDemo420, [], twDemo480] (by decide) rfl twDemo_retains3
+
+/-- … and what the two runs actually hold: the trimmed run keeps the stamps 240 … 480 with the
+untrimmed run's SMA readings (3 candles were popped) -/
+example : (candlesOf (runIndicator (mkTop (F := Int) (.sma 3 "close") "SMA_3" 4) (cfgLifeOnly 240) twDemoInit
+      [twDemo420, [], twDemo480])).toOption.map (·.map (fun c => (c.ts, rd (dlookup "SMA_3" c.inds))))
+    = some [(some 240, some 9), (some 300, some 9), (some 420, some 7), (some 480, some 5)] := by
+  decide +kernel
+example : (candlesOf (runIndicator (mkTop (F := Int) (.sma 3 "close") "SMA_3" 4) {} twDemoInit
+      [twDemo420, [], twDemo480])).toOption.map (·.map (fun c => (c.ts, rd (dlookup "SMA_3" c.inds))))
+    = some [(some 60, none), (some 120, none), (some 180, some 6),
+            (some 240, some 9), (some 300, some 9), (some 420, some 7), (some 480, some 5)] := by
+  decide +kernel
+
+/-- EMA 3 NOT seeded at construction (two candles): the recurrence is seeded during the first
+append, the later appends pop candles; `RetainsFrom 2` holds (lifespan 120 s) -/
+def twDemoInit2 : List (Candle Int) := twDemoInit.take 2
+def twDemo180 : List (Candle Int) := [mk 4 4 0 9 5 180]
+def twDemo240 : List (Candle Int) := [mk 1 2 1 12 7 240]
+def twDemo300 : List (Candle Int) := [mk 3 6 2 6 9 300]
+
+theorem twDemo_retains2 : RetainsFrom 2 120 twDemoInit2 twDemoInit2.length [twDemo180, twDemo240, twDemo300] :=
+  Or.inr ⟨by decide, twDemoInit2 ++ twDemo180, rfl, Or.inl (by decide),
+    Or.inr ⟨by decide, (twDemoInit2 ++ twDemo180 ++ twDemo240).drop 1, rfl, Or.inr (by decide),
+      Or.inr ⟨by decide, (twDemoInit2 ++ twDemo180 ++ twDemo240 ++ twDemo300).drop 2, rfl, Or.inr (by decide),
+        trivial⟩⟩⟩
+
+example : ∃ d, candlesOf (runIndicator (mkTop (F := Int) (.ema 3 "close" (.int 2)) "EMA_3" 4) (cfgLifeOnly 120)
+      twDemoInit2 [twDemo180, twDemo240, twDemo300])
+    = (candlesOf (runIndicator (mkTop (F := Int) (.ema 3 "close" (.int 2)) "EMA_3" 4) {} twDemoInit2
+      [twDemo180, twDemo240, twDemo300])).map (·.drop d) :=
+  C15b_full_leaf (.ema 3 "close" (.int 2)) "EMA_3" 4 2 (.ema 3 "close" _ (by decide) (by decide)) rfl 120
+    twDemoInit2 [twDemo180, twDemo240, twDemo300] (by decide) rfl twDemo_retains2
+
+/-- the constructed EMA is indeed unseeded (so `twin_schedule_ema` does not apply) -/
+example : (rowMajor (mkTop (F := Int) (.ema 3 "close" (.int 2)) "EMA_3" 4) twDemoInit2).toOption.map
+    (fun a => (Ctx.lastReading "EMA_3" a).isNone) = some true := by decide
+
+end Demo
+
+#print axioms twin_scheduleW
+#print axioms twin_schedule_sma
+#print axioms twin_schedule_roc
+#print axioms twin_schedule_wma
+#print axioms twin_schedule_vwma
+#print axioms twin_schedule_ema_unseeded
+#print axioms twin_schedule_rma_unseeded
+#print axioms C15b_full_leaf
+
 end Hex
